@@ -238,6 +238,20 @@ def proof_gate(prop, cfg, work):
     return res
 
 
+def coqchk_audit(prop, cfg):
+    """Thorough tier: re-check the compiled closure of the property's theorems with the independent checker and
+    return (ok, axioms listed by -o, log tail)."""
+    d = cfg.get("coq_dir", prop)
+    with open(os.path.join(ROOT, "work", ".coq.lock"), "w") as lk:
+        fcntl.flock(lk, fcntl.LOCK_SH)
+        rc, out = run(["coqchk", "-silent", "-o", "-R", COQ, "Verif", "Verif.%s.Properties" % d], cwd=COQ, timeout=3000)
+    axioms = []
+    m = re.search(r"\* Axioms:\s*(.*?)(?:\n\s*\n|\n\* |\Z)", out, re.S)
+    if m:
+        axioms = [a.strip() for a in m.group(1).split("\n") if a.strip() and a.strip() != "<none>"]
+    return rc == 0, axioms, out[-3000:]
+
+
 def eval_shard(work, fname, timeout):
     t0 = time.time()
     rc, out = run(["coqc", "-R", COQ, "Verif", "-o", os.path.join(work, fname[:-2] + ".vo"), fname], cwd=work, timeout=timeout)
@@ -327,7 +341,8 @@ def one_round(prop, cfg, work, tier, seed, scale):
     """Build + run harness, evaluate shards. Returns dict with verdict material."""
     r = dict(build_failed=False, harness_failed=False, machinery=None, meta=None, fails={}, log="",
              shard_errors=[], coq_s=0.0, harness_s=0.0)
-    rc, out, binp = build_harness(cfg.get("harness", prop), work)
+    race = tier == "thorough" and bool(cfg.get("race_thorough"))
+    rc, out, binp = build_harness(cfg.get("harness", prop), work, race=race)
     if rc != 0:
         if rc == -9:
             r["machinery"] = "go build timed out"
@@ -337,7 +352,9 @@ def one_round(prop, cfg, work, tier, seed, scale):
     for f in glob.glob(os.path.join(work, "cases_*")) + glob.glob(os.path.join(work, "meta.json")):
         os.remove(f)
     t0 = time.time()
-    env = dict(GOENV, VERIF_WORK=work, VERIF_ROOT=ROOT)
+    env = dict(GOENV, VERIF_WORK=work, VERIF_ROOT=ROOT, VERIF_REPO=REPO)
+    if race:
+        env["GORACE"] = "halt_on_error=1 exitcode=66"
     tmo = cfg.get("harness_timeout_s", {}).get(tier, 600 if tier == "quick" else 3000)
     rc, out = run([binp, "-seed", str(seed), "-tier", tier, "-out", work, "-scale", str(scale)], cwd=work, env=env, timeout=tmo * max(1, scale))
     r["harness_s"] = time.time() - t0
@@ -399,6 +416,16 @@ def check(prop, tier, seed):
     log("[%s] proof gate: %d/%d theorems closed%s" % (prop, gate["discharged"], gate["obligations"],
                                                      "" if gate["ok"] else " -- PROBLEMS: " + "; ".join(gate["problems"])))
 
+    chk = None
+    if tier == "thorough" and gate["ok"] and not os.environ.get("VERIF_NO_COQCHK"):
+        ok, ax, clog = coqchk_audit(prop, cfg)
+        chk = dict(ok=ok, axioms=ax)
+        log("[%s] coqchk: %s; axioms of the loaded closure: %s" % (prop, "ok" if ok else "FAILED", ", ".join(ax) or "none"))
+        if not ok:
+            gate["ok"] = False
+            gate["problems"].append("coqchk rejected the compiled closure of %s/Properties.vo" % cfg.get("coq_dir", prop))
+            gate["log"] = clog
+
     scale = 1
     if not gate["ok"]:
         scale = 3  # the proof no longer stands: search harder for a concrete failing input
@@ -445,7 +472,7 @@ def check(prop, tier, seed):
         violations.append("harness build failed")
         no_input = True
     elif r["harness_failed"]:
-        crashed = re.search(r"^(panic:|fatal error:|SIGSEGV|goroutine \d+ \[)", r["log"], re.M) is not None
+        crashed = re.search(r"^(panic:|fatal error:|SIGSEGV|goroutine \d+ \[|WARNING: DATA RACE)", r["log"], re.M) is not None
         if not crashed:
             log("[%s] machinery failure: harness exited abnormally without a Go panic:\n%s" % (prop, r["log"][-3000:]))
             return 2
@@ -522,7 +549,7 @@ def check(prop, tier, seed):
         model_impl_mismatches=len(mism) if r["meta"] else None, spec_failures=len(spec) if r["meta"] else None,
         known_findings_hit={str(k): v for k, v in known_hit.items()},
         partial_clauses=cfg.get("partial_clauses", []), tested_only_clauses=cfg.get("tested_only_clauses", []),
-        harness_s=round(r["harness_s"], 2), coq_eval_s=round(r["coq_s"], 2), escalated=scale != 1,
+        coqchk=chk, harness_s=round(r["harness_s"], 2), coq_eval_s=round(r["coq_s"], 2), escalated=scale != 1,
     )
     ev = dict(property_id=prop, tier=tier, seed=seed, level="proof", coverage=cov,
               assumptions=cfg.get("assumptions", []), wall_s=round(wall, 2), violations=len(violations))
